@@ -23,10 +23,11 @@ def parseChkA (s : String) : Option ChkA :=
   if s = "*" then none
   else
     let c := s.toList
-    some ⟨c.contains 'n', c.contains 'a', c.contains 'r', c.contains 'o', c.contains 'd', c.contains 'g'⟩
+    some ⟨c.contains 'n', c.contains 'a', c.contains 'r', c.contains 'o', c.contains 'd', c.contains 'g', c.contains 'b'⟩
 
-def parseVals (n a r o d g : String) : Option ValsA := do
-  pure ⟨← Bytes.ofHex n, ← parseOpt a, ← parseList r, ← parseOpt o, ← parseOpt d, ← parseList g⟩
+/-- `b`: the optional trailing boss field (absent = nil) -/
+def parseVals (n a r o d g : String) (b : String := "~") : Option ValsA := do
+  pure ⟨← Bytes.ofHex n, ← parseOpt a, ← parseList r, ← parseOpt o, ← parseOpt d, ← parseList g, ← parseOpt b⟩
 
 def parseOp (s : String) : Option Op :=
   match s.splitOn ":" with
@@ -34,6 +35,10 @@ def parseOp (s : String) : Option Op :=
   | ["ua", id, n, a, r, o, d, g, c] => do pure (.updateA (← Bytes.ofHex id) (← parseVals n a r o d g) (parseChkA c))
   | ["cc", id, n, a, r, o, d, g, code, pals] => do
     pure (.createA1 (← Bytes.ofHex id) (← parseVals n a r o d g) (← Bytes.ofHex code) (← parseList pals))
+  | ["ca", id, n, a, r, o, d, g, b] => do pure (.createA (← Bytes.ofHex id) (← parseVals n a r o d g b))
+  | ["ua", id, n, a, r, o, d, g, c, b] => do pure (.updateA (← Bytes.ofHex id) (← parseVals n a r o d g b) (parseChkA c))
+  | ["cc", id, n, a, r, o, d, g, code, pals, b] => do
+    pure (.createA1 (← Bytes.ofHex id) (← parseVals n a r o d g b) (← Bytes.ofHex code) (← parseList pals))
   | ["ri", a, b] => do pure (.rcInc (← Bytes.ofHex a) (← Bytes.ofHex b))
   | ["rd", a, b] => do pure (.rcDec (← Bytes.ofHex a) (← Bytes.ofHex b))
   | ["rs", a, b, n] => do pure (.rcSet (← Bytes.ofHex a) (← Bytes.ofHex b) (← n.toNat?))
